@@ -16,6 +16,9 @@ def run(prop):
     if prop == "C04":
         import cases_family
         return cases_family.c04()
+    if prop == "C17":
+        import cases_family
+        return cases_family.c17()
     if prop == "C18":
         import cases_family
         return cases_family.c18()
